@@ -208,6 +208,55 @@ def _make_term(rel):
 
 
 EXTRA = [_make_term(f) for f in _term_files()]
+
+# ----------------------------------------------- frame: the caller's stream --
+OWNING_WRAPPERS = {"io.TextIOWrapper", "io.BufferedReader", "io.BufferedRandom", "io.BufferedWriter", "io.BufferedRWPair", "contextlib.closing",
+                   "TextIOWrapper", "BufferedReader", "BufferedRandom", "closing", "codecs.StreamReader", "codecs.StreamReaderWriter"}
+
+
+def stream_frame(repo, tier):
+    """Every registered extractor leaves the stream it was given open: callers rewind and reuse it (EmailContent.
+    iterate_supported_attachments seeks it in a `finally`, archive members are BytesIO objects of the caller), and a closed
+    stream makes that `seek` raise ValueError -- outside the ExtractionError family.  Per extractor function: the first
+    parameter (and local aliases of it) is never closed, never used as a context manager and never handed to a wrapper that
+    takes ownership of the underlying stream (io.TextIOWrapper / Buffered* close it when they are closed or collected).
+    Unrecognised -> unknown -> the native replayer checks `file_like.closed` after every corpus run."""
+    import ast as _ast
+    from pyvc.flow import dotted, ground_obligation
+    obls = []
+    for rel, fn in registered_extractors(repo):
+        mod = loader.module(rel, repo)
+        f = mod.functions.get(fn)
+        if f is None or not f.args.args:
+            continue
+        p0 = f.args.args[0].arg
+        alias = {p0}
+        for n in _ast.walk(f):
+            if isinstance(n, _ast.Assign) and isinstance(n.value, _ast.Name) and n.value.id in alias:
+                for t in n.targets:
+                    if isinstance(t, _ast.Name):
+                        alias.add(t.id)
+        bad = []
+        for n in _ast.walk(f):
+            if isinstance(n, _ast.Call):
+                d = dotted(n.func) or ""
+                if isinstance(n.func, _ast.Attribute) and n.func.attr in ("close", "detach", "__exit__") and isinstance(n.func.value, _ast.Name) and n.func.value.id in alias:
+                    bad.append(f"line {n.lineno}: {_ast.unparse(n)}")
+                head = d.split(".")[0]
+                full = (mod.imports.get(head, head) + d[len(head):]) if d else ""
+                if (d in OWNING_WRAPPERS or full in OWNING_WRAPPERS) and any(isinstance(a, _ast.Name) and a.id in alias for a in list(n.args) + [k.value for k in n.keywords]):
+                    bad.append(f"line {n.lineno}: {_ast.unparse(n)[:80]} takes ownership of the caller's stream")
+            if isinstance(n, (_ast.With, _ast.AsyncWith)):
+                for it in n.items:
+                    if isinstance(it.context_expr, _ast.Name) and it.context_expr.id in alias:
+                        bad.append(f"line {n.lineno}: `with {it.context_expr.id}` closes the caller's stream")
+        obls.append(ground_obligation(f"C01/{rel.split('/')[-1]}::{fn}/frame#caller-stream-left-open", not bad, "; ".join(bad), f"{rel}:{f.lineno}",
+                                      kind="frame", definite=False))
+    return {"obligations": obls, "functions": []}
+
+
+EXTRA = EXTRA + [stream_frame]
+
 BOUNDED = ["termination NOT decided for: pdf_extractor._TableExtractor._extract while-0 (125-line line classifier, more than 4000 paths per iteration; "
            "its index advances by `idx += 1` or to the `next_idx` returned by _extract_word_date_header, which is not under contract); `for` loops: "
            "decreases#for-loops-finite shows per file that no loop iterates an infinite constructor or grows its own iterable, finiteness of third-party "
